@@ -52,7 +52,14 @@ fn fixed_state() -> std::hash::RandomState {
 
 fn check_errexit(kinds: &[u8], f: &Field) {
     let mut env = Env::with_system(PidSys);
-    let v: Vec<Frame> = kinds.iter().map(|&k| frame(k, f)).collect();
+    // a real allocation even for the empty stack (a dangling zero-capacity Vec makes CBMC reason
+    // about a symbolic pointer: out of memory)
+    let mut v: Vec<Frame> = Vec::with_capacity(kinds.len() + 1);
+    let mut vi = 0;
+    while vi < kinds.len() {
+        v.push(frame(kinds[vi], f));
+        vi += 1;
+    }
     env.stack = Stack::from(v);
     let on: bool = kani::any();
     env.options.set(ErrExit, if on { On } else { Off });
@@ -80,21 +87,38 @@ fn check_errexit(kinds: &[u8], f: &Field) {
 }
 
 macro_rules! errexit_harness {
-    ($name:ident, $($n:literal),*) => {
+    ($name:ident, $n:literal) => {
         #[kani::proof]
         #[kani::unwind(8)]
         #[kani::stub(std::hash::RandomState::new, fixed_state)]
         fn $name() {
+            // one stack depth per harness (several depths in one harness ran CBMC out of memory)
             let f = Field::dummy("b");
             let keep = f.clone();
-            let sel: u8 = kani::any();
-            $( if sel == $n { let k = any_kinds::<$n>(); check_errexit(&k, &f); } )*
-            kani::assume(false $( || sel == $n )*);
+            let k = any_kinds::<$n>();
+            check_errexit(&k, &f);
+            kani::cover!(true, "each: reached");
             std::mem::forget(keep);
             std::mem::forget(f);
         }
     };
 }
-errexit_harness!(c10_errexit_0_2, 0, 1, 2);
+errexit_harness!(c10_errexit_1, 1);
+errexit_harness!(c10_errexit_2, 2);
 errexit_harness!(c10_errexit_3, 3);
 errexit_harness!(c10_errexit_4, 4);
+
+/// Depth 0: the empty stack (written out; the generic harness with a zero-length symbolic
+/// array ran CBMC out of memory).
+#[kani::proof]
+#[kani::unwind(8)]
+#[kani::stub(std::hash::RandomState::new, fixed_state)]
+fn c10_errexit_0() {
+    let f = Field::dummy("b");
+    let keep = f.clone();
+    let none: [u8; 0] = [];
+    check_errexit(&none, &f);
+    kani::cover!(true, "each: reached");
+    std::mem::forget(keep);
+    std::mem::forget(f);
+}
